@@ -27,6 +27,7 @@ import (
 	old_faithful_grpc "github.com/rpcpool/yellowstone-faithful/old-faithful-proto/old-faithful-grpc"
 	"github.com/rpcpool/yellowstone-faithful/slottools"
 	solanatxmetaparsers "github.com/rpcpool/yellowstone-faithful/solana-tx-meta-parsers"
+	"github.com/rpcpool/yellowstone-faithful/third_party/solana_proto/confirmed_block"
 	"github.com/rpcpool/yellowstone-faithful/tooling"
 	"golang.org/x/sync/errgroup"
 	"google.golang.org/grpc"
@@ -763,11 +764,8 @@ func (multi *MultiEpoch) processSlotTransactions(
 			return false
 		}
 
-		if filter.Failed != nil && !(*filter.Failed) { // If failed is false, we should filter out failed transactions
-			err := getErr(meta)
-			if err != nil {
-				return false
-			}
+		if filter.Failed != nil && !(*filter.Failed) && isFailedTransaction(meta) { // If failed is false, we should filter out failed transactions
+			return false
 		}
 
 		if !gsfaReadersLoaded { // Only needed if gsfaReaders not loaded, otherwise handled in the main branch
@@ -1040,6 +1038,23 @@ func (multi *MultiEpoch) processSlotTransactions(
 		}
 
 		return nil
+	}
+}
+
+// isFailedTransaction reports whether the transaction status metadata records an error.
+func isFailedTransaction(meta any) bool {
+	switch metaValue := meta.(type) {
+	case nil:
+		return false
+	case *confirmed_block.TransactionStatusMeta:
+		return metaValue != nil && metaValue.Err != nil
+	default:
+		// NOTE: getErr returns a typed nil map for successful protobuf metadata, so its result
+		// must not be compared with nil for that type (handled above).
+		if errMap, ok := getErr(meta).(map[string]any); ok {
+			return errMap != nil
+		}
+		return getErr(meta) != nil
 	}
 }
 
